@@ -133,6 +133,9 @@ fn world_op_sx(tag: u64, c: &BuiltCase, it: &mut Intern, tail: Vec<Sx>) -> Sx {
 pub fn gen_case(seed: u64, k: u64, tier: Tier) -> Case {
   let mut rng = Rng::for_case(seed, k);
   let mut c = gen_build_case(&mut rng, tier);
+  // histories edit and reload worlds per specifier; modules answered under another final specifier
+  // (where "the entry of X" depends on who was asked) are left to the C01/C03/C04 streams
+  c.world.final_specifiers.clear();
   // default dynamic options for histories; roots: up to 4 plain module specifiers
   c.bcfg.is_dynamic = false;
   let plain: Vec<String> = c.world.entries.iter().filter(|(s, e)| attr_class_target(s, true) == 0 && !matches!(e, Entry::Redirect(_))).map(|(s, _)| s.clone()).collect();
